@@ -155,11 +155,13 @@ func main() {
 	r := vh.NewRand(cfg.Seed)
 	out := vh.NewOut(cfg.Out, "From Coq Require Import ZArith List Bool.\nImport ListNotations.\nFrom LinDBV.C13 Require Import Model Check.\nOpen Scope Z_scope.\n")
 	out.ShardSize = 500
-	offs := []int{0}
+	// fixed zones: UTC, whole-hour offsets, and offsets that are not a whole hour (+05:30, +05:45, -03:30): families and
+	// segments are cut on the local clock, so "truncate to the UTC hour" is right only in the first two kinds
+	offs := []int{0, 19800}
 	if cfg.Tier == "thorough" {
-		offs = []int{0, 8 * 3600, -5 * 3600, 19800}
+		offs = []int{0, 8 * 3600, -5 * 3600, 19800, 20700, -12600}
 	} else if cfg.Seed%2 == 0 {
-		offs = []int{0, 8 * 3600}
+		offs = []int{8 * 3600, -12600}
 	}
 	for _, off := range offs {
 		time.Local = time.FixedZone("verif", off)
